@@ -16,7 +16,9 @@ CLAIMED = {
             'Deductive proof of the exact characterisation of Representation.get_segment_index (first segment in scan order '
             'whose midpoint reaches the timecode, loop origin a multiple of the reference duration) with loop invariants and '
             'termination, for all durations, timescales and loop counts; the same characterisation carried through '
-            'calculate_segment_from_timecode / calculate_segment_number_and_time; lemmas: $Time$ exactness, served start '
+            'calculate_segment_from_timecode / calculate_segment_number_and_time; generateSegmentTimeline (run-length '
+            'list with ghost absolute indices): consecutive canonical segments with the drift-corrected last duration, '
+            'gapless across any number of loops; lemmas: canonical contiguity, $Time$ exactness, served start '
             'within half a segment of the $Number$ time, source position = start modulo the reference duration, cross-track '
             'alignment under divisibility (drift otherwise: known finding).',
             'Trusted: pyvc encoding; z3/cvc5. The handler lines that apply origin_time / sequence_number to the MP4 are not '
@@ -60,8 +62,11 @@ CLAIMED['C01'] = (
     'Proof at the pure layer: exact contracts of calculate_first_and_last_segment_number, '
     'calculate_segment_number_and_time (availability test with the half-microsecond rounding of timedelta made explicit), '
     'calculate_segment_from_timecode and LiveMedia.calculate_media_segment_index (raises ValueError = 404 exactly outside the '
-    'window / number range); lemma: every $Number$ whose 5.3.9.5.3 window contains now is accepted, in the region '
-    'leeway >= 2 segment durations; complements are known findings with native witnesses.',
+    'window / number range); generateSegmentTimeline (live) lists exactly the consecutive canonical segments starting at '
+    'the segment get_segment_index finds for firstAvailableTime and covering the buffer depth; lemmas: every $Number$ '
+    'whose 5.3.9.5.3 window contains now is accepted (region leeway >= 2 segment durations), every SegmentTimeline '
+    'entry that has ended is accepted (region: uniform durations, start_number 0/1, leeway >= half a segment, stream '
+    'older than its window); complements are known findings with native witnesses.',
     'Trusted: pyvc encoding; float as exact real in timescale_to_timedelta (bounded grid under C19). Both sides are assumed to '
     'be built from the same DashTiming (query-string forwarding is C07). Handler/template layer, init segments and the '
     '$Time$/SegmentTimeline half: see evidence not_covered.',
@@ -70,7 +75,9 @@ CLAIMED['C06'] = (
     'DESIGN.md 4 C06',
     'Proof at the pure layer: VOD first/last numbers (sn, sn+n-1); VOD number/time -> stored segment map and the 404 (ValueError) '
     'exactly outside sn..sn+n-1 in LiveMedia.calculate_media_segment_index (vod); generateSegmentList returns init = segment 0 and '
-    'media[k] = [pos(k+1), pos(k+1)+size(k+1)-1] for all n segments (loop invariant, termination).',
+    'media[k] = [pos(k+1), pos(k+1)+size(k+1)-1] for all n segments (loop invariant, termination); the VOD '
+    'SegmentTimeline lists consecutive stored segments from (0, segment 1) up to the reference duration (known finding '
+    'when the track and the reference differ in length).',
     'Trusted: pyvc encoding. Representation.load, OnDemandMedia.get, templates and calculate_vod_params are not under contract yet '
     '(evidence not_covered).',
     'contract-based deductive verification (AST->VC generator, z3 + cvc5), native replay of counter-models')
